@@ -1,15 +1,27 @@
-"""setup_cmd: regenerate all generated files, clean build, runner, coqchk."""
+"""setup_cmd: regenerate all generated files, build the theorems and runners of every
+claimed property from scratch, optionally run coqchk."""
+import importlib
+import json
 import subprocess
 import sys
 
 from harness import core
 
-ALL_TRANSLATORS = ["unicode_tables"]
+
+def claimed():
+    m = json.loads((core.VERIF / "MANIFEST.json").read_text())
+    return [c["property_id"] for c in m["checks"]]
 
 
 def main():
+    props = [importlib.import_module(f"harness.props.{p.lower()}") for p in claimed()]
+    translators = []
+    for p in props:
+        for t in getattr(p, "TRANSLATORS", []):
+            if t not in translators:
+                translators.append(t)
     with core.Lock():
-        errs = core.regenerate(ALL_TRANSLATORS)
+        errs = core.regenerate(translators)
         bad = {k: v for k, v in errs.items() if v}
         if bad:
             print("translator errors:", bad)
@@ -17,23 +29,31 @@ def main():
         if hits:
             print("FORBIDDEN vernacular:", hits)
             return 1
-        subprocess.run(["sh", "-c", "cd %s && ./mk.sh clean >/dev/null 2>&1 || true" % core.COQ])
-        ok, log, wall = core.coq_build([], timeout=3000)
+        if "--clean" in sys.argv:
+            subprocess.run(["sh", "-c", "cd %s && find theories -name '*.vo' -o -name '*.glob' -o -name '*.vok' -o -name '*.vos' -o -name '.*.aux' | xargs rm -f" % core.COQ])
+        targets = []
+        tags = []
+        for p in props:
+            tag = getattr(p, "RUNNER", "")
+            targets += [f"theories/Props/{p.PROP_FILE}o", f"theories/Model/Shell{tag}.vo"]
+            if tag not in tags:
+                tags.append(tag)
+        ok, log, wall = core.coq_build(sorted(set(targets)), timeout=3000)
         print(log[-3000:])
         print(f"coq build ok={ok} wall={wall:.0f}s")
         if not ok:
             return 1
-        rok, rlog = core.build_runner()
-        print("runner:", rok, rlog[-500:])
-        if not rok:
-            return 1
+        for tag in tags:
+            rok, rlog = core.build_runner(tag)
+            print("runner", repr(tag), rok, rlog[-300:])
+            if not rok:
+                return 1
     if "--coqchk" in sys.argv:
-        vos = sorted(str(p) for p in (core.COQ / "theories" / "Props").glob("*.vo"))
-        mods = ["PMS.Props." + p.split("/")[-1][:-3] for p in vos]
+        mods = ["PMS.Props." + p.PROP_FILE[:-2] for p in props]
         proc = subprocess.run(["timeout", "3000", "coqchk", "-silent", "-o", "-Q", "theories", "PMS"] + mods,
                               cwd=core.COQ, stdout=subprocess.PIPE, stderr=subprocess.STDOUT, text=True)
         (core.BUILD / "coqchk.txt").write_text(proc.stdout)
-        print(proc.stdout[-1500:])
+        print(proc.stdout[-2500:])
         return proc.returncode
     return 0
 
